@@ -87,12 +87,15 @@ FLAVOURS = [
     {"depth": 1, "pb": 0.2, "p_attach": 0.12, "p_detach": 0.04, "p_reserved": 0.02,
      "data_weights": {"set_dataset": 5, "delete": 4, "move": 4, "copy": 2, "create_group": 1.5, "set_attr": 1.5, "del_attr": 0.5,
                       "require_group": 0}},                                                # few paths, rewritten over and over
+    {"p_attach": 0.38, "attach_deep_datasets": 0.7, "p_detach": 0.04, "p_reserved": 0.02,
+     "data_weights": {"copy": 6, "move": 6, "set_dataset": 5, "create_group": 2, "delete": 1.5, "set_attr": 0.5, "del_attr": 0.2}},
+    # metadata on datasets inside groups, then the groups are copied / moved
 ]
 
 
 def jobs(n: int, nops: int, seed: int, **kw) -> List[Dict[str, Any]]:
     return [{"tid": k + 1, "seed": seed * 17 + k, "nops": nops, "stage": 0 if k % 5 == 0 else 1,
-             "concrete": k % 2 == 0, **FLAVOURS[k % len(FLAVOURS)], **kw} for k in range(n)]
+             "concrete": k % 4 in (0, 3), **FLAVOURS[k % len(FLAVOURS)], **kw} for k in range(n)]
 
 
 def run_container(rep: Report, wd: Path, pid: str, js: List[Dict[str, Any]], label: str = "container_histories",
@@ -236,7 +239,7 @@ def standard_run(pid: str, tier: str, rule: str, assumptions: List[str], extra=N
         import concurrent.futures as cf
         with cf.ThreadPoolExecutor(max_workers=2) as ex:
             fut = ex.submit(container_model, rep, wd, pid, 4 if quick else 5, 6 if quick else 8)
-            js = jobs(48 if quick else 600, 18 if quick else 28, seed, nq=nq_quick if quick else 12)
+            js = jobs(60 if quick else 600, 18 if quick else 28, seed, nq=nq_quick if quick else 12)
             good, verd = run_container(rep, wd, pid, js)
             for j, t in good[:2]:
                 rep.sample({"tid": j["tid"], "ops": [[e["op"], "/".join(e["a"].get("p", [])), "/".join(e["a"].get("q", [])),
